@@ -63,6 +63,95 @@ def sites_of(path):
     return out
 
 
+SRC_FILES = ["internal/common.c", "internal/common.h", "internal/counter.c", "internal/cv.c", "internal/debug.c", "internal/dll.c", "internal/dll.h",
+             "internal/mu.c", "internal/mu_wait.c", "internal/note.c", "internal/once.c", "internal/sem.h", "internal/sem_wait.c",
+             "internal/time_internal.c", "internal/wait.c", "platform/linux/src/nsync_semaphore_futex.c", "platform/posix/src/time_rep.c",
+             "platform/c++11/src/time_rep_timespec.cc"]
+
+
+def funcs_of(repo, rel):
+    """G4: (file, function, fingerprint) for every function of a C file — the fingerprint is a hash of the function's text
+    with comments removed and white space collapsed, so that reformatting and comments do not change it but any change
+    of a token does; what is outside any function (declarations, macros, struct definitions) is the pseudo-function
+    `(file scope)`; headers are one entry per `#define` plus `(file scope)`."""
+    import hashlib
+    t = strip_comments(open(os.path.join(repo, rel)).read())
+    base = os.path.basename(rel)
+    def h(x):
+        return hashlib.sha256(re.sub(r"\s+", " ", x).strip().encode()).hexdigest()[:16]
+    out = []
+    lines = t.split("\n")
+    if rel.endswith(".h"):
+        rest = []; i = 0
+        while i < len(lines):
+            ln = lines[i]
+            m = re.match(r"\s*#\s*define\s+(\w+)", ln)
+            if m:
+                body = ln
+                while body.rstrip().endswith("\\") and i + 1 < len(lines):
+                    i += 1; body += "\n" + lines[i]
+                out.append((base, "#define " + m.group(1), h(body)))
+            else:
+                rest.append(ln)
+            i += 1
+        out.append((base, "(file scope)", h("\n".join(rest))))
+        return out
+    depth = 0; func = None; cand = None; body = []; scope = []; seen = {}
+    for ln in lines:
+        if depth == 0 and func is None:
+            m = re.match(r"^[A-Za-z_].*?\b(\w+)\s*\([^;]*$", ln)
+            if m and not ln.strip().startswith("#") and not ln.strip().startswith("typedef"):
+                cand = m.group(1); candlines = [ln]
+            elif cand is not None and "{" not in ln and ";" not in ln:
+                candlines.append(ln)
+            if cand is not None and "{" in ln:
+                func = cand; body = list(candlines) if candlines[-1] is ln else candlines + [ln]; cand = None
+            elif cand is None or ";" in ln:
+                if ";" in ln: cand = None
+                scope.append(ln)
+        elif func is not None:
+            body.append(ln)
+        depth += ln.count("{") - ln.count("}")
+        if func is not None and depth == 0 and "}" in ln:
+            k = seen.get(func, 0); seen[func] = k + 1
+            out.append((base, func if k == 0 else "%s#%d" % (func, k + 1), h("\n".join(body))))
+            func = None; body = []
+    out.append((base, "(file scope)", h("\n".join(scope))))
+    return out
+
+
+def all_funcs(repo):
+    rows = []
+    for rel in SRC_FILES:
+        if os.path.exists(os.path.join(repo, rel)):
+            rows += funcs_of(repo, rel)
+    return rows
+
+
+def funcs_table(rows, ns, name):
+    return ("def %s : List (String × String × String) := [\n" % name + ",\n".join("  (%s, %s, %s)" % tuple(lean_str(x) for x in r) for r in rows) + "\n]\n")
+
+
+def expected_funcs(lean_dir):
+    """the frozen G4 table, parsed back from Model/ExpectedSrc.lean"""
+    try:
+        t = open(os.path.join(lean_dir, "NsyncVerif", "Model", "ExpectedSrc.lean")).read()
+    except FileNotFoundError:
+        return []
+    return re.findall(r'\("([^"]*)", "([^"]*)", "([0-9a-f]*)"\)', t)
+
+
+def changed_funcs(repo, lean_dir):
+    """functions whose text differs from the frozen fingerprints: [(file, function, what)]"""
+    cur = {(a, b): c for a, b, c in all_funcs(repo)}
+    exp = {(a, b): c for a, b, c in expected_funcs(lean_dir)}
+    out = []
+    for k in sorted(set(cur) | set(exp)):
+        if cur.get(k) != exp.get(k):
+            out.append((k[0], k[1], "changed" if k in cur and k in exp else ("new" if k in cur else "removed")))
+    return out
+
+
 def consts_of(repo):
     """compile and run a probe printing the constants (uses the repo's own headers)"""
     probe = r'''
@@ -138,6 +227,9 @@ def generate(repo, lean_dir):
     cs = consts_of(repo)
     txt = "-- GENERATED by tools/gen_tables.py (compiled probe over internal/common.h, common.c) on every run. Do not edit.\nnamespace NsyncVerif.Gen\ndef consts : List (String × Nat) := [\n" + ",\n".join("  (%s, %d)" % (lean_str(k), v) for k, v in cs) + "\n]\nend NsyncVerif.Gen\n"
     write_if_changed(os.path.join(g, "Consts.lean"), txt)
+    # G4
+    txt = "-- GENERATED by tools/gen_tables.py (fingerprints of the text of every function of the modelled sources) on every run. Do not edit.\nnamespace NsyncVerif.Gen\n/-- (file, function, hash of the comment-free, white-space-normalised text) -/\n" + funcs_table(all_funcs(repo), "Gen", "funcs") + "end NsyncVerif.Gen\n"
+    write_if_changed(os.path.join(g, "Funcs.lean"), txt)
 
 
 def write_if_changed(path, txt):
@@ -180,6 +272,12 @@ def freeze(repo, lean_dir):
            "def consts : List (String × Nat) := [\n" + ",\n".join("  (%s, %d)" % (lean_str(k), v) for k, v in cs) + "\n]\n"
            "end NsyncVerif.Expected\n")
     open(os.path.join(lean_dir, "NsyncVerif", "Model", "Expected.lean"), "w").write(txt)
+    txt = ("/-\n  ExpectedSrc — fingerprints of the source text the models were VALIDATED against (lockstep, differential runs, the\n"
+           "  builders' mutation rounds), frozen by tools/gen_tables.py --freeze.  Proofs/TieSrc/*.lean prove on every run that the\n"
+           "  functions each layer models still have exactly this text (comments and white space aside).  A changed function is a\n"
+           "  broken tie: the model must be re-validated against the new text before its theorems say anything about it.\n-/\n"
+           "namespace NsyncVerif.ExpectedSrc\n" + funcs_table(all_funcs(repo), "ExpectedSrc", "funcs") + "end NsyncVerif.ExpectedSrc\n")
+    open(os.path.join(lean_dir, "NsyncVerif", "Model", "ExpectedSrc.lean"), "w").write(txt)
 
 
 if __name__ == "__main__":
